@@ -66,6 +66,51 @@ def run_puppet(cfg, script, drain=False):
     e = pu.E.conn
     unblocked_after_raise = False
     qo = None
+    frozen = {}        # sizes of the peer-driven queues when the endpoint decided to close
+
+    def ncid_frame(seq, rpt):
+        return F.enc_new_connection_id(seq, rpt, bytes([seq % 256, seq // 256 % 256, seq // 65536 % 256, 7, 7, 7, 7, 7]), bytes(16))
+
+    def quiet(payload):
+        """receive_datagram() of an injected packet, no datagrams_to_send() afterwards"""
+        from harness import inject as inj
+        data = inj.build(pu.sim, pu.P, payload)
+        if data is not None:
+            d = {"id": -1, "src": pu.P, "dst": pu.E, "data": data, "to": pu.E.addr, "from": pu.P.addr, "t": pu.sim.now,
+                 "injected": True}
+            pu.sim._emit("on_datagram_delivered", pu.E, d, pu.P.addr)
+            pu.sim.api(pu.E, "receive_datagram", data, pu.P.addr, now=pu.sim.now)
+
+    def queue_sizes():
+        from aioquic import tls
+        return {"pending retirements": len(e._retire_connection_ids), "peer connection ids": len(e._peer_cid_available),
+                "path challenges": sum(len(np_.remote_challenges) for np_ in e._network_paths),
+                "CRYPTO bytes": sum(len(cs.receiver._buffer) for cs in e._crypto_streams.values()),
+                "stream bytes": sum(len(st.receiver._buffer) for st in e._streams.values())}
+
+    def check_queues(act):
+        """the documented bounds of the peer-driven state, after every step: pending retirements <= min(4 * limit, 100)
+        (+ frames in flight, re-queued on loss, + local change_connection_id() calls) or the connection is closed;
+        once the endpoint has decided to close, nothing the peer sends makes this state grow any more"""
+        if pu.closed is None:
+            lim = e._local_active_connection_id_limit
+            if 1 + len(e._peer_cid_available) > lim:
+                queue_problems.append(f"{1 + len(e._peer_cid_available)} peer connection ids held > limit {lim} after {act}")
+            unacked = set(pu.outstanding)
+            inflight = sum(1 for ep_, pn, fr in pu.log.built.get(pu.E.name, []) if pn in unacked and ep_ == "ONE_RTT"
+                           for f in fr if f["name"] == "RETIRE_CONNECTION_ID")
+            n_change = sum(1 for a in script if a[0] == "change_cid")
+            if len(e._retire_connection_ids) > min(4 * lim, 100) + inflight + n_change:
+                queue_problems.append(f"{len(e._retire_connection_ids)} retirements pending > {min(4 * lim, 100)} + {inflight} unacknowledged + {n_change} local after {act}, connection not closed")
+        else:
+            now_ = queue_sizes()
+            if not frozen:
+                frozen.update(now_)
+            for kq, v in now_.items():
+                if v > frozen[kq]:
+                    queue_problems.append(f"{kq}: {v} > {frozen[kq]} held when the endpoint decided to close (code {pu.closed}); "
+                                          f"frames received after the close decision are still queued, after {act}")
+                    frozen[kq] = v
     try:
         if not pu.ok:
             return {"pu": pu, "handshake": False}
@@ -199,7 +244,21 @@ def run_puppet(cfg, script, drain=False):
                 pu.inject(b"".join(F.enc_path_challenge(bytes([i % 256]) * 8) for i in range(act[1])))
             elif k == "ncid":
                 _, seq, rpt = act
-                pu.inject(F.enc_new_connection_id(seq, rpt, bytes([seq % 256, seq // 256 % 256, 7, 7, 7, 7, 7, 7]), bytes(16)))
+                pu.inject(ncid_frame(seq, rpt))
+            elif k == "ncids":
+                # several NEW_CONNECTION_ID frames in ONE packet (the endpoint cannot transmit in between)
+                pu.inject(b"".join(ncid_frame(seq, rpt) for seq, rpt in act[1]))
+            elif k == "quiet":
+                # a burst of datagrams (one frame each: ("ncid", seq, rpt) / ("chal", n) / ("crypto", off, len)) handed to
+                # receive_datagram() WITHOUT datagrams_to_send() in between; the bounds are checked after every datagram
+                for sub in act[1]:
+                    if sub[0] == "ncid":
+                        quiet(ncid_frame(sub[1], sub[2]))
+                    elif sub[0] == "chal":
+                        quiet(b"".join(F.enc_path_challenge(bytes([i % 256, sub[1] % 256]) * 4) for i in range(sub[1])))
+                    else:
+                        quiet(F.enc_crypto(sub[1], bytes(sub[2])))
+                    check_queues(("quiet", sub))
             elif k == "change_cid":
                 pu.api("change_connection_id")
             elif k == "fill":
@@ -232,16 +291,7 @@ def run_puppet(cfg, script, drain=False):
             for np_ in e._network_paths:
                 if len(np_.remote_challenges) > 32:
                     queue_problems.append(f"{len(np_.remote_challenges)} path challenges queued after {act}")
-            if pu.closed is None:
-                lim = e._local_active_connection_id_limit
-                if 1 + len(e._peer_cid_available) > lim:
-                    queue_problems.append(f"{1 + len(e._peer_cid_available)} peer connection ids held > limit {lim} after {act}")
-                unacked = set(pu.outstanding)
-                inflight = sum(1 for ep_, pn, fr in pu.log.built.get(pu.E.name, []) if pn in unacked and ep_ == "ONE_RTT"
-                               for f in fr if f["name"] == "RETIRE_CONNECTION_ID")
-                n_change = sum(1 for a in script if a[0] == "change_cid")
-                if len(e._retire_connection_ids) > min(4 * lim, 100) + inflight + n_change:
-                    queue_problems.append(f"{len(e._retire_connection_ids)} retirements pending > {min(4 * lim, 100)} + {inflight} unacknowledged + {n_change} local after {act}")
+            check_queues(act)
         progress = []
         if drain and pu.closed is None:
             # raise the data limits, then the stream-count limits ONE STEP AT A TIME; after each
